@@ -183,4 +183,55 @@ theorem C01_tidied_uninstall_raises :
     (((uninstallBy Gen.EpisodeRegs.uninstallBody twoSharing "nmap").bind
         (fun n => uninstallBy Gen.EpisodeRegs.uninstallBody n "ransomware-script")).isSome = true) := by decide
 
+/-! ### `SoftwareManager.install` -/
+
+/-- whatever the statements are, `execInstall` can fail only through the nested `uninstall` -/
+theorem execInstall_total_of_uninstall (ubody : List Stmt) (c : Cls) (cfg : Bool) (body : List IStmt)
+    (P : Node → Prop) (hP : ∀ n, P n → ∃ n', uninstallBy ubody n c.name = some n' ∧ P n') (n : Node) (hn : P n) :
+    (execInstall ubody c cfg body n).isSome = true := by
+  induction body generalizing n with
+  | nil => rfl
+  | cons s rest ih =>
+    cases s with
+    | guardRefused =>
+      simp only [execInstall]
+      split
+      · rfl
+      · exact ih n hn
+    | construct => exact ih n hn
+    | evictIfInstalled =>
+      simp only [execInstall]
+      split
+      · obtain ⟨n', hu, hn'⟩ := hP n hn
+        rw [hu]; exact ih n' hn'
+      · exact ih n hn
+    | write => exact ih n hn
+    | ret => rfl
+
+/-- **Totality of `SoftwareManager.install`** (translated on this run: `Gen.EpisodeRegs.installBody`, with the translated
+`uninstall` as the nested call): on every node reachable in the registries model by any operation sequence, installing ANY class,
+with or without a configuration, returns — the only statement of the method that can raise is the eviction of the installed instance of
+that name, and `uninstall` is total there (`C01_uninstall_keeps_agreement`).  Assumes the constructor and the lifecycle calls
+`start()` / `install()` return (C13's subject). -/
+theorem C01_install_total (p : Power) (up down : Int) (ops : List Op) (c : Cls) (cfg : Bool) :
+    (execInstall Gen.EpisodeRegs.uninstallBody c cfg Gen.EpisodeRegs.installBody
+      (Node.run { power := p, upDur := up, downDur := down } ops)).isSome = true := by
+  obtain ⟨es, h⟩ := rep_run ops _ [] (C13_rep_init p up down)
+  refine execInstall_total_of_uninstall _ c cfg _ (fun n => ∃ es, Rep n es) ?_ _ ⟨es, h⟩
+  intro n ⟨es', h'⟩
+  obtain ⟨n', hu, hr⟩ := C01_uninstall_keeps_agreement n es' h' c.name
+  exact ⟨n', hu, _, hr⟩
+
+/-- **Gen obligation**: the shape of `install` the note describes — refusal guard, construction, eviction, then only statements that
+cannot raise (the eviction comes BEFORE every registry write). -/
+theorem C01_gen_install_body :
+    Gen.EpisodeRegs.installBody.take 3 = [.guardRefused, .construct, .evictIfInstalled] ∧
+    (Gen.EpisodeRegs.installBody.drop 3).all (fun s => s == .write || s == .ret) = true := by decide
+
+/-- non-vacuity: with the tidied `uninstall` a CONFIGURED re-install of ransomware-script after nmap was removed raises
+(the eviction hits the missing port entry) -/
+example :
+    ((uninstallBy tidied twoSharing "nmap").bind
+      (fun n => execInstall tidied ransomCls true [.guardRefused, .construct, .evictIfInstalled, .write] n)).isSome = false := by decide
+
 end Primaite.C01Regs
